@@ -34,5 +34,6 @@ extern struct kv_op kv_ops_kmeans[];
 extern struct kv_op kv_ops_pipe[];
 extern struct kv_op kv_ops_pipefile[];
 extern struct kv_op kv_ops_cli[];
+extern struct kv_op kv_ops_f32[];
 
 #endif
